@@ -71,6 +71,9 @@ func (i *interpreter) mapFind(m *omap, key value) int {
 }
 
 func (i *interpreter) mapLookup(m *omap, key value) (value, bool) {
+	if i.frozen != nil && m != nil {
+		i.noteFrozenMapRead(m)
+	}
 	j := i.mapFind(m, key)
 	if j < 0 {
 		return nil, false
